@@ -296,4 +296,14 @@ theorem overlap_masks_missing : (exSubC.account [.writeRaw [⟨1, some 2, 1⟩, 
 theorem overlap_complete_reports_false : (exSubC.account [.writeRaw [⟨0, some 2, 1⟩, ⟨0, some 2, 1⟩, ⟨0, some 2, 1⟩],
     .writeRaw [⟨1, some 2, 1⟩, ⟨0, some 2, 1⟩, ⟨0, some 2, 1⟩]]).check = false := by decide
 
+/-- the hypotheses of `account_check_iff` are satisfiable: the mixed write / write_raw history above, over the 8 raw cells of the subset
+    (rows 1..2 of the parent's raw array) -/
+example :
+    let h : List WOp := [.write [⟨0, some 1, 1⟩, ⟨0, some 2, 1⟩], .writeRaw [⟨1, some 2, 1⟩, ⟨0, some 2, 1⟩, ⟨0, some 2, 1⟩]]
+    let U := cellsOf (rawUniverse exSubC)
+    U.Nodup ∧ exSubC.expected = U.length ∧ (∀ op ∈ h, exSubC.incr op = (cellsOf (exSubC.rawCover op)).length) ∧
+    ((h.map (fun op => cellsOf (exSubC.rawCover op))).flatten).Nodup ∧
+    (∀ c ∈ (h.map (fun op => cellsOf (exSubC.rawCover op))).flatten, c ∈ U) ∧
+    (∀ u ∈ U, u ∈ (h.map (fun op => cellsOf (exSubC.rawCover op))).flatten) := by decide
+
 end Sarpy.Props.SegHist
